@@ -186,6 +186,12 @@ def ownership_monitor(evs):
                 return "event %d: worker %d took an entry of buffer %d in state %d" % (k, b, b, s)
             if io_window == b:
                 return "event %d: worker %d touched buffer %d while the I/O thread is flushing/refilling it" % (k, b, b)
+        elif kind == 13:        # an (instrumented) stream object is transforming a block: its worker must own the buffer
+            b = tid - 1
+            if st.get(b, 0) != 2:
+                return "event %d: worker %d transforms a block of buffer %d while it is in state %d (not READY: already handed back)" % (k, b, b, st.get(b, 0))
+            if io_window == b:
+                return "event %d: worker %d transforms a block of buffer %d while the I/O thread is flushing/refilling it" % (k, b, b)
         elif kind in (4, 6):    # export begin / load begin
             if kind == 6 and val == 1:
                 continue        # over: no load happens
